@@ -17,7 +17,7 @@ pub static DEF: CheckDef = CheckDef {
     assumptions: &[
         "models::sm83 (cycle counts incl. taken/not-taken), models::irq; block extent = up to the next terminator or the 16 KiB ROM boundary; EI at a block end takes effect at the block boundary in block modes",
         "a run ends where the reference meets an undefined opcode or HALT with an enabled request pending (counted)",
-        "a run_frame() that does not return within 20 s of CPU time is reported through the worker's death (SIGALRM)",
+        "run_frame() is called in a forked child with a 4 s alarm (a frame takes about a millisecond), so a call that never returns is reported as such; device positions are also checked in closed form (divider = clocks since the last DIV write, LCD line/mode = models::lcd at the delivered total), independently of the twin",
     ],
     required_classes: &["mode-instruction", "mode-block-interpreter", "mode-block-jit", "dispatch", "suspended-stretch", "multi-cycle-block", "carried-dispatch-cycles", "run-frame"],
     exhaustive: false,
@@ -27,8 +27,11 @@ fn case_json(p: &ProgSpec, mode: u8, steps: u32) -> Value {
     json!({"kind": "program-time", "mode": mode, "steps": steps, "spec": p})
 }
 
+static FRAME_HUNG: std::sync::atomic::AtomicBool = std::sync::atomic::AtomicBool::new(false);
+
 #[derive(Default)]
 struct Stats {
+    try_frame: bool,
     dispatch: bool,
     suspended: bool,
     multi: bool,
@@ -79,6 +82,8 @@ fn run_mode(spec: &ProgSpec, mode: u8, steps: u32, st: &mut Stats) -> CaseResult
     let mut r = RefMachine::new(t);
     let a: &mut dyn Emu = if mode == 2 { &mut aj } else { &mut ai };
     let mut suspended_run = 0;
+    let mut total: u64 = 0;
+    let mut div_base: u64 = 0;
     for step in 0..steps {
         let info = if mode == 0 { r.step_instruction() } else { r.step_block(100_000) };
         if info.out_of_domain.is_some() {
@@ -120,6 +125,27 @@ fn run_mode(spec: &ProgSpec, mode: u8, steps: u32, st: &mut Stats) -> CaseResult
             return Err(Fail::new("last-block-cycle-length", format!("step {} ({}): last_block_cycle_length = {}, the block consumed {}", step, what, a.last_block_cycles(), info.clocks / 4)));
         }
         compare(a, &r, step, &what)?;
+        // device positions in closed form from the delivered total, independent of the twin
+        // (accumulated from the per-step deltas: the twin shares the counter in the interpreter-build modes)
+        total += delta;
+        if info.writes.iter().any(|(ad, _)| *ad == 0xff04) {
+            // DIV was written by an instruction of this step, before its clocks were delivered
+            div_base = total - delta;
+        }
+        if matches!(info.irq, IrqOutcome::Dispatched { pushes, .. } if pushes.iter().any(|(ad, _)| *ad == 0xff04)) {
+            // ... or by the dispatch's push (runaway stack), after they were delivered
+            div_base = total;
+        }
+        let sc = a.scalars();
+        let get = |n: &str| sc.iter().find(|(k, _)| *k == n).map(|x| x.1).unwrap_or(0);
+        let want_div = (total - div_base) & 0xffff;
+        if get("divider") != want_div {
+            return Err(Fail::new("timer-time", format!("step {} ({}): the timer's divider is at {:#06x}; {} clocks were delivered since DIV was last written, so it must be at {:#06x}", step, what, get("divider"), total - div_base, want_div)));
+        }
+        let pos = models::lcd::position(total);
+        if get("lcd_line") != pos.line as u64 || get("lcd_mode") != pos.mode as u64 {
+            return Err(Fail::new("lcd-time", format!("step {} ({}): the LCD is at line {} mode {}; {} clocks were delivered since power-on, which is line {} mode {}", step, what, get("lcd_line"), get("lcd_mode"), total, pos.line, pos.mode)));
+        }
         if let IrqOutcome::Dispatched { .. } = info.irq {
             st.dispatch = true;
         }
@@ -143,36 +169,68 @@ fn run_mode(spec: &ProgSpec, mode: u8, steps: u32, st: &mut Stats) -> CaseResult
             }
         }
     }
-    // run_frame from wherever the program is now
-    if !st.left {
-        let before = a.clocks_total();
-        unsafe { libc::alarm(20) };
-        let res = guarded(|| a.run_frame());
-        unsafe { libc::alarm(0) };
-        if let Err(msg) = res {
-            // executing data after a runaway is outside the domain; anything else is not
-            if !msg.contains("Invalid") && !msg.contains("TRIED TO EXECUTE") {
-                return Err(Fail::new("run-frame-panic", format!("run_frame() panicked: {}", msg)));
+    // run_frame from wherever the program is now (not while shrinking, and not again in
+    // this process once it has failed to return: every such call costs the whole alarm)
+    if !st.left && st.try_frame && !FRAME_HUNG.load(std::sync::atomic::Ordering::Relaxed) {
+        // in a forked child, so that a run_frame() that never returns does not take the worker with it
+        let mut fds = [0i32; 2];
+        unsafe { libc::pipe(fds.as_mut_ptr()) };
+        let pid = unsafe { libc::fork() };
+        if pid == 0 {
+            unsafe { libc::alarm(4) };
+            let before = a.clocks_total();
+            let res = guarded(|| a.run_frame());
+            let delta = a.clocks_total().wrapping_sub(before);
+            let sc = a.scalars();
+            let mode_now = sc.iter().find(|(n, _)| *n == "lcd_mode").map(|x| x.1).unwrap_or(9);
+            let line = sc.iter().find(|(n, _)| *n == "lcd_line").map(|x| x.1).unwrap_or(999);
+            let code: u64 = match res {
+                Ok(()) => 0,
+                Err(m) if m.contains("Invalid") || m.contains("TRIED TO EXECUTE") => 1,
+                Err(_) => 2,
+            };
+            let rec: [u64; 5] = [code, delta, mode_now, line, a.last_block_cycles() as u64];
+            unsafe {
+                libc::write(fds[1], rec.as_ptr() as *const libc::c_void, 40);
+                libc::_exit(0);
             }
+        }
+        let mut status = 0;
+        unsafe {
+            libc::close(fds[1]);
+            libc::waitpid(pid, &mut status, 0);
+        }
+        let mut rec = [0u64; 5];
+        let n = unsafe { libc::read(fds[0], rec.as_mut_ptr() as *mut libc::c_void, 40) };
+        unsafe { libc::close(fds[0]) };
+        if libc::WIFSIGNALED(status) || n != 40 {
+            let sig = if libc::WIFSIGNALED(status) { libc::WTERMSIG(status) } else { 0 };
+            FRAME_HUNG.store(true, std::sync::atomic::Ordering::Relaxed);
+            return Err(Fail::new("run-frame-does-not-return", format!("run_frame() did not return within 4 s of CPU time (child ended by signal {}); LCDC = {:#04x}", sig, a.read(0xff40))));
+        }
+        if rec[0] == 1 {
             return Ok(());
         }
-        let delta = a.clocks_total().wrapping_sub(before);
-        let bound = 2 * 70224 + 4 * (a.last_block_cycles() as u64 + 5) + 4 * 64;
+        if rec[0] == 2 {
+            return Err(Fail::new("run-frame-panic", "run_frame() panicked".to_string()));
+        }
+        let delta = rec[1];
+        let bound = 2 * 70224 + 4 * (rec[4] + 5) + 4 * 64;
         if delta > bound {
             return Err(Fail::new("run-frame-too-long", format!("run_frame() delivered {} clocks (> two frames + one block = {})", delta, bound)));
         }
-        let sc = a.scalars();
-        let mode_now = sc.iter().find(|(n, _)| *n == "lcd_mode").map(|x| x.1).unwrap_or(9);
-        let line = sc.iter().find(|(n, _)| *n == "lcd_line").map(|x| x.1).unwrap_or(999);
+        let (mode_now, line) = (rec[2], rec[3]);
         if mode_now == 1 || line > 20 {
             return Err(Fail::new("run-frame-position", format!("after run_frame() the LCD is at line {} in mode {} (expected: just after the vertical blank)", line, mode_now)));
         }
+        return Ok(());
     }
     Ok(())
 }
 
 fn exec(spec: &ProgSpec, mode: u8, steps: u32, rec: &mut Rec, counting: bool) -> CaseResult {
     let mut st = Stats::default();
+    st.try_frame = counting;
     let r = run_mode(spec, mode, steps, &mut st);
     if counting {
         rec.eval(1);
